@@ -55,7 +55,19 @@ pub fn gen_world(seed: u64, idx: u64, s: &dyn SuiteOps) -> World {
         }
     };
     let reg_ids = mk(&mut g, None, s_real);
-    let (r, ops) = b.reg_ops(&mut g, s_real, &pw, &pw, &cred, reg_ids, ksf.clone(), true);
+    let (r, mut ops) = b.reg_ops(&mut g, s_real, &pw, &pw, &cred, reg_ids, ksf.clone(), true);
+    // degenerate but legal tape at the sealing step: the envelope nonce is all zeros / all 0xFF
+    // (seeded change R8C06-A: the envelope tag was not looked at for the all-zero nonce)
+    if g.chance(1, 8) {
+        let fill = if g.chance(2, 3) { 0u8 } else { 0xFF };
+        for op in ops.iter_mut() {
+            if let Op::RegFinish { tape, .. } = op {
+                if let crate::world::Tape::Own(l) = tape.clone() {
+                    *tape = crate::world::Tape::Scripted(l, vec![fill; 32].into());
+                }
+            }
+        }
+    }
     for o in ops {
         b.push(o);
     }
